@@ -386,7 +386,72 @@ func ifaceKey(cc *ssa.CallCommon) string {
 }
 
 func (ex *Exec) ifaceContract(cc *ssa.CallCommon) *FuncContract {
-	return ex.P.CS.Ifaces[ifaceKey(cc)]
+	if c, ok := ex.P.CS.Ifaces[ifaceKey(cc)]; ok {
+		return c
+	}
+	// the method may be declared in an embedded interface, or a contract may be written on an interface that
+	// embeds the static one: look for a contract on any interface declaring / containing this method object
+	if cc.Method != nil {
+		if sig, ok := cc.Method.Type().(*types.Signature); ok && sig.Recv() != nil {
+			if n, ok := types.Unalias(sig.Recv().Type()).(*types.Named); ok && n.Obj().Pkg() != nil {
+				k := n.Obj().Pkg().Path() + "." + n.Obj().Name() + "." + cc.Method.Name()
+				if c, ok := ex.P.CS.Ifaces[k]; ok {
+					return c
+				}
+			}
+		}
+		suffix := "." + cc.Method.Name()
+		var found *FuncContract
+		for k, c := range ex.P.CS.Ifaces {
+			if !strings.HasSuffix(k, suffix) {
+				continue
+			}
+			it := ex.lookupIface(strings.TrimSuffix(k, suffix))
+			if it == nil {
+				continue
+			}
+			for i := 0; i < it.NumMethods(); i++ {
+				if it.Method(i) == cc.Method {
+					if found != nil && found != c {
+						return nil // ambiguous
+					}
+					found = c
+				}
+			}
+		}
+		return found
+	}
+	return nil
+}
+
+// lookupIface resolves "pkgpath.Name" to an interface type among the loaded packages.
+func (ex *Exec) lookupIface(full string) *types.Interface {
+	i := strings.LastIndex(full, ".")
+	if i < 0 {
+		return nil
+	}
+	path, name := full[:i], full[i+1:]
+	for _, pp := range ex.P.PPkg {
+		var pk *types.Package
+		if pp.Types.Path() == path {
+			pk = pp.Types
+		} else {
+			for _, imp := range pp.Types.Imports() {
+				if imp.Path() == path {
+					pk = imp
+				}
+			}
+		}
+		if pk != nil {
+			if tn, ok := pk.Scope().Lookup(name).(*types.TypeName); ok {
+				if it, ok := tn.Type().Underlying().(*types.Interface); ok {
+					return it
+				}
+			}
+			return nil
+		}
+	}
+	return nil
 }
 
 func (ex *Exec) setResult(st *State, instr *ssa.Call, v Val) {
@@ -714,6 +779,9 @@ func (ex *Exec) inlineCall(st *State, fn *ssa.Function, args []Val, bind []Val, 
 
 // contractCall: assert requires, havoc modifies, assume ensures.
 func (ex *Exec) contractCall(fr *frame, st *State, c *FuncContract, name string, sig *types.Signature, names []string, ptypes []types.Type, args []Val, pos string) Val {
+	if len(c.Behaviors) > 0 {
+		return ex.contractCallBehaviors(fr, st, c, name, sig, names, ptypes, args, pos)
+	}
 	p := ex.p
 	c.Used = true
 	if c.Trusted {
@@ -800,9 +868,12 @@ func (ex *Exec) assumeEnsures(ctx *EvalCtx, st, pre *State, c *FuncContract, sig
 			ex.pointerBound(st, t, sig.Results().At(i).Type())
 		}
 	}
+	if len(c.AssumedEnsures) > 0 {
+		ex.assumptions["assumed postcondition of "+c.Key+": "+c.AssumedEnsures[0].Text] = true
+	}
 	evalAll := func() []*Term {
 		var terms []*Term
-		for _, e := range c.Ensures {
+		for _, e := range append(append([]*Clause(nil), c.Ensures...), c.AssumedEnsures...) {
 			t := ex.evalBool(post, e)
 			if ctx.guard != nil {
 				t = p.Implies(ctx.guard, t)
@@ -1119,7 +1190,7 @@ func (ex *Exec) havocMod(ctx *EvalCtx, st, pre *State, m *Clause, pos string) {
 		}
 		s, ok := ex.regionSorts[t.region]
 		if !ok {
-			ex.fail("modifies: unknown region %s", t.region)
+			continue // never read or written so far in this execution: nothing to forget
 		}
 		r := ex.getRegion(st, t.region, s)
 		if t.ref == nil {
@@ -1369,4 +1440,45 @@ func (ex *Exec) bytesOfAbstract(h *Term) *Term {
 		ex.facts = append(ex.facts, p.Forall([]*Term{x}, p.Eq(p.App(g, p.App(f, x)), x), []*Term{p.App(f, x)}))
 	}
 	return p.App(f, h)
+}
+
+// contractCallBehaviors: a callee with several behaviours. The caller must establish the precondition of at least
+// one of them; each behaviour's postcondition is assumed under its own precondition (evaluated in the pre-state).
+func (ex *Exec) contractCallBehaviors(fr *frame, st *State, c *FuncContract, name string, sig *types.Signature, names []string, ptypes []types.Type, args []Val, pos string) Val {
+	p := ex.p
+	all := append([]*FuncContract{c}, c.Behaviors...)
+	vars := map[string]tv{}
+	for i, n := range names {
+		if i < len(args) && n != "" && n != "_" {
+			vars[n] = tv{args[i], ptypes[i]}
+		}
+	}
+	if len(names) > 0 && sig.Recv() != nil {
+		vars["self"] = tv{args[0], ptypes[0]}
+	}
+	ctx := &EvalCtx{ex: ex, st: st, vars: vars, pkgPath: c.PkgPath}
+	var pres []*Term
+	for _, b := range all {
+		var gs []*Term
+		for _, r := range b.Requires {
+			gs = append(gs, ex.evalBool(ctx, r))
+		}
+		pres = append(pres, p.And(gs...))
+	}
+	ex.oblige(st, "call["+name+"].pre", "the precondition of some behaviour of "+name+" holds", p.Or(pres...), pos)
+	pre := st.fork()
+	for _, b := range all {
+		for _, m := range b.Modifies {
+			ex.havocMod(ctx, st, pre, m, pos)
+		}
+	}
+	nt := p.Fresh("heapTop", IntSort)
+	ex.assume(st, p.Ge(nt, st.heapTop))
+	st.heapTop = nt
+	res := ex.freshResults(st, sig, name)
+	for i, b := range all {
+		bc := &EvalCtx{ex: ex, st: st, vars: vars, pkgPath: c.PkgPath, guard: pres[i]}
+		ex.assumeEnsures(bc, st, pre, b, sig, res)
+	}
+	return res
 }
